@@ -721,6 +721,10 @@ class ReadSetReader:
             right_pad = reference[pos + len(variant.reference_allele) : pos + right_ref_bases]
             padded_alleles = [reference[pos - left_ref_bases : pos + right_ref_bases]]
             for alt in variant.get_alt_allele_list():
+                if right_ref_bases <= len(variant.reference_allele):
+                    # The read (or this block of it) ends inside the variant: like the reference
+                    # window, an ALT allele is cut to what the read can show of it
+                    alt = alt[: max(right_ref_bases, right_query_bases)]
                 padded_alleles.append(left_pad + alt + right_pad)
 
         if use_affine:
